@@ -1,0 +1,61 @@
+//go:build verif
+
+// Verification contracts for persisting / restoring a consumer group (pkg/broker/coordinator.go: buildConsumerGroup,
+// restoreGroupState, persistGroupLocked); comment-only, read by /verif/govc. Shared definitions are in
+// zz_verif_contracts_c13.go; restoreGroupState's other clauses (well-formedness, frame, group invariant) are there too.
+
+package broker
+
+// the stored name of a phase, and the phase a stored name denotes
+//@ spec func phaseName(p groupPhase) string = ite(p == groupStatePreparingRebalance, "preparing_rebalance", ite(p == groupStateCompletingRebalance, "completing_rebalance", ite(p == groupStateStable, "stable", ite(p == groupStateDead, "dead", "empty"))))
+//@ spec func phaseOf(n string) groupPhase = ite(n == "preparing_rebalance", groupStatePreparingRebalance, ite(n == "completing_rebalance", groupStateCompletingRebalance, ite(n == "stable", groupStateStable, ite(n == "dead", groupStateDead, groupStateEmpty))))
+// a duration as stored (whole milliseconds in an int32, 0 when not positive) and as restored (30 s when not positive)
+//@ spec func msOf(d time.Duration) int32 = ite(d > 0, int32(d / 1000000), 0)
+//@ spec func durOf(ms int32) time.Duration = ite(ms > 0, ms * 1000000, 30000000000)
+
+// buildConsumerGroup: a new protobuf record that carries the group's id, phase, protocol, leader, generation,
+// rebalance timeout and, per member, its session timeout and its subscription list element by element.
+//@ func buildConsumerGroup
+//@   opaque_strings
+//@   merge_branches
+//@   returns_fresh
+//@   requires groupOK(state)
+//@   ensures [C15.build_group_fields] result != nil && result.GroupId == groupID && result.State == phaseName(state.state) && result.ProtocolType == state.protocolType && result.Protocol == state.protocolName && result.Leader == state.leaderID && result.GenerationId == state.generationID && result.RebalanceTimeoutMs == msOf(state.rebalanceTimeout)
+//@   ensures [C15.build_member_set] result.Members != nil && (forall k string :: has(result.Members, k) == has(state.members, k))
+//@   ensures [C15.build_member_fields] forall k string :: has(state.members, k) ==> mapval(result.Members, k) != nil && mapval(result.Members, k).SessionTimeoutMs == msOf(mapval(state.members, k).sessionTimeout) && len(mapval(result.Members, k).Subscriptions) == len(mapval(state.members, k).topics) && len(mapval(result.Members, k).Assignments) == ite(has(state.assignments, k), len(mapval(state.assignments, k)), 0)
+//@   ensures [C15.build_subscriptions] forall k string, j int :: has(state.members, k) && 0 <= j && j < len(mapval(state.members, k).topics) ==> mapval(result.Members, k).Subscriptions[j] == mapval(state.members, k).topics[j]
+//@   ensures [C15.build_changes_no_group] groupsUntouched() && keepsMem("string") && keepsMem("assignmentTopic") && keepsMem("int32") && keepsMapLen()
+//@   loop 1 invariant group != nil && fresh(group) && group.Members != nil && fresh(group.Members) && groupsUntouched() && keepsMem("string") && keepsMem("assignmentTopic") && keepsMem("int32") && keepsMapLen()
+//@   loop 1 invariant forall k string :: has(group.Members, k) == seen(1, k)
+//@   loop 1 invariant forall k string :: has(group.Members, k) ==> has(state.members, k) && mapval(group.Members, k) != nil && fresh(mapval(group.Members, k)) && allocated(mapval(group.Members, k)) && allocated(mapval(group.Members, k).Subscriptions) && mapval(group.Members, k).SessionTimeoutMs == msOf(mapval(state.members, k).sessionTimeout) && len(mapval(group.Members, k).Subscriptions) == len(mapval(state.members, k).topics) && len(mapval(group.Members, k).Assignments) == ite(has(state.assignments, k), len(mapval(state.assignments, k)), 0)
+//@   loop 1 invariant forall k string, j int :: has(group.Members, k) && 0 <= j && j < len(mapval(state.members, k).topics) ==> mapval(group.Members, k).Subscriptions[j] == mapval(state.members, k).topics[j]
+//@   loop 2 invariant group != nil && fresh(group) && group.Members != nil && fresh(group.Members) && groupsUntouched() && keepsMem("string") && keepsMem("assignmentTopic") && keepsMem("int32") && keepsMapLen()
+//@   loop 2 invariant forall k string :: has(group.Members, k) == (seen(1, k) && k != memberID)
+//@   loop 2 invariant forall k string :: has(group.Members, k) ==> has(state.members, k) && mapval(group.Members, k) != nil && fresh(mapval(group.Members, k)) && allocated(mapval(group.Members, k)) && allocated(mapval(group.Members, k).Subscriptions) && mapval(group.Members, k).SessionTimeoutMs == msOf(mapval(state.members, k).sessionTimeout) && len(mapval(group.Members, k).Subscriptions) == len(mapval(state.members, k).topics) && len(mapval(group.Members, k).Assignments) == ite(has(state.assignments, k), len(mapval(state.assignments, k)), 0)
+//@   loop 2 invariant forall k string, j int :: has(group.Members, k) && 0 <= j && j < len(mapval(state.members, k).topics) ==> mapval(group.Members, k).Subscriptions[j] == mapval(state.members, k).topics[j]
+//@   loop 2 invariant has(state.members, memberID) && member == mapval(state.members, memberID) && member != nil && pbMember != nil && fresh(pbMember) && pbMember.SessionTimeoutMs == msOf(member.sessionTimeout) && len(pbMember.Subscriptions) == len(member.topics) && (len(pbMember.Subscriptions) == 0 || fresh(pbMember.Subscriptions)) && (forall j int :: 0 <= j && j < len(member.topics) ==> pbMember.Subscriptions[j] == member.topics[j])
+//@   loop 2 invariant has(state.assignments, memberID) && sameSlice(assignments, mapval(state.assignments, memberID)) && -1 <= rangeidx(2) && rangeidx(2) < len(assignments) && len(pbMember.Assignments) == rangeidx(2) + 1 && fresh(pbMember.Assignments)
+
+// restoreGroupState: the group a stored record denotes. Field by field: protocol, generation, phase (phaseOf),
+// rebalance timeout (durOf), the leader when the stored leader is a stored member, one member per stored member with
+// its session timeout (durOf), its subscription list element by element, and joinGeneration = the stored generation
+// (so that members of the current generation go on without rejoining: C14.restore_establishes_group_invariant).
+//@ func restoreGroupState
+//@   ensures [C15.restore_group_fields] result.protocolName == group.Protocol && result.protocolType == group.ProtocolType && result.generationID == group.GenerationId && result.state == phaseOf(group.State) && result.rebalanceTimeout == durOf(group.RebalanceTimeoutMs)
+//@   ensures [C15.restore_leader] group.Leader != "" && has(group.Members, group.Leader) ==> result.leaderID == group.Leader
+//@   ensures [C15.restore_member_set] forall k string :: has(result.members, k) == has(group.Members, k)
+//@   ensures [C15.restore_member_fields] forall k string :: has(group.Members, k) ==> mapval(result.members, k).sessionTimeout == durOf(mapval(group.Members, k).SessionTimeoutMs) && mapval(result.members, k).joinGeneration == group.GenerationId && len(mapval(result.members, k).topics) == len(mapval(group.Members, k).Subscriptions)
+//@   ensures [C15.restore_subscriptions] forall k string, j int :: has(group.Members, k) && 0 <= j && j < len(mapval(group.Members, k).Subscriptions) ==> mapval(result.members, k).topics[j] == mapval(group.Members, k).Subscriptions[j]
+//@   ensures [C15.restore_assignment_entries] forall k string :: has(result.assignments, k) == (has(group.Members, k) && len(mapval(group.Members, k).Assignments) > 0)
+//@   ensures [C15.roundtrip_scalars] forall s0 *groupState :: group.GenerationId == s0.generationID && group.State == phaseName(s0.state) && group.RebalanceTimeoutMs == msOf(s0.rebalanceTimeout) && group.Protocol == s0.protocolName && group.ProtocolType == s0.protocolType && 0 <= s0.state && s0.state <= 4 && s0.rebalanceTimeout > 0 && s0.rebalanceTimeout % 1000000 == 0 && s0.rebalanceTimeout <= 2147483647000000 ==> result.generationID == s0.generationID && result.state == s0.state && result.rebalanceTimeout == s0.rebalanceTimeout && result.protocolName == s0.protocolName && result.protocolType == s0.protocolType
+//@   loop 1 invariant state.protocolName == group.Protocol && state.protocolType == group.ProtocolType && state.state == phaseOf(group.State) && state.rebalanceTimeout == durOf(group.RebalanceTimeoutMs) && state.leaderID == group.Leader
+//@   loop 1 invariant (forall k string :: has(state.members, k) == seen(1, k))
+//@   loop 1 invariant forall k string :: has(state.members, k) ==> has(group.Members, k) && fresh(mapval(state.members, k)) && mapval(state.members, k).sessionTimeout == durOf(mapval(group.Members, k).SessionTimeoutMs) && len(mapval(state.members, k).topics) == len(mapval(group.Members, k).Subscriptions) && allocated(mapval(state.members, k).topics)
+//@   loop 1 invariant forall k string, j int :: has(state.members, k) && 0 <= j && j < len(mapval(group.Members, k).Subscriptions) ==> mapval(state.members, k).topics[j] == mapval(group.Members, k).Subscriptions[j]
+//@   loop 1 invariant forall k string :: has(state.assignments, k) == (has(state.members, k) && len(mapval(group.Members, k).Assignments) > 0)
+//@   loop 2 invariant state.protocolName == group.Protocol && state.protocolType == group.ProtocolType && state.state == phaseOf(group.State) && state.rebalanceTimeout == durOf(group.RebalanceTimeoutMs) && state.leaderID == group.Leader
+//@   loop 2 invariant (forall k string :: has(state.members, k) == seen(1, k))
+//@   loop 2 invariant forall k string :: has(state.members, k) ==> has(group.Members, k) && fresh(mapval(state.members, k)) && mapval(state.members, k).sessionTimeout == durOf(mapval(group.Members, k).SessionTimeoutMs) && len(mapval(state.members, k).topics) == len(mapval(group.Members, k).Subscriptions) && allocated(mapval(state.members, k).topics)
+//@   loop 2 invariant forall k string, j int :: has(state.members, k) && 0 <= j && j < len(mapval(group.Members, k).Subscriptions) ==> mapval(state.members, k).topics[j] == mapval(group.Members, k).Subscriptions[j]
+//@   loop 2 invariant forall k string :: has(state.assignments, k) == (has(state.members, k) && k != memberID && len(mapval(group.Members, k).Assignments) > 0)
+//@   loop 2 invariant len(member.Assignments) > 0
